@@ -2,7 +2,7 @@
 HANDLER = "C19"
 RULE = ("(table) the pattern ASTs of create_rewrites() dumped by the harness vs the model's rule table; "
         "(cond) ArithRewrite::eval_condition vs the model on ALL width/sign assignments with widths <= 6 (quick) / 8 (thorough) plus assignments "
-        "at the edge of u32; (inst) every rule x every width/sign assignment with widths <= 4 (quick) / 5 (thorough): both patterns instantiated as "
+        "at the edge of u32 and 3000/40000 per rule with log-uniform random widths up to u32::MAX (partly correlated); (inst) every rule x every width/sign assignment with widths <= 4 (quick) / 5 (thorough): both patterns instantiated as "
         "tools/egraphs-cond-synth does, lowered with the real from_arith (structural comparison with the model), evaluated with the real eval_expr on "
         "all operand values when the side condition holds and the operands have <= 12 bits in total (else on corner + random samples), compared with "
         "the model's value and lhs vs rhs (property oracle); (sample) directed random assignments up to 24/64 bits satisfying the side conditions 5/6 of "
@@ -24,11 +24,30 @@ TRUSTED = ["ocaml/driver/c19.ml labels an oracle failure with a known-finding ke
            "returns Panic on the assignment and the left-hand side lowered)"]
 
 
+import os
+
+# Self-test hook (REPORT-C19.md, "mutations"): C19_HARNESS_PROFILE=mut makes the generated streams run
+# .build/cargo/mut/verif-harness (a harness built against a mutated scratch copy of /repo) instead of the
+# binary ./check has just built from /repo.  Unset in normal use.
+_PROFILE = os.environ.get("C19_HARNESS_PROFILE")
+
+
+def _with_profile(streams):
+    if _PROFILE:
+        for s in streams:
+            s["profile"] = _PROFILE
+    return streams
+
+
 def streams(tier, seed):
+    return _with_profile(_streams(tier, seed))
+
+
+def _streams(tier, seed):
     if tier == "quick":
         return [
             dict(tag="table", count=1, seed=seed, extra={"mode": "table"}),
-            dict(tag="cond6", count=0, seed=seed, extra={"mode": "cond", "bound": 6, "extreme": 60}),
+            dict(tag="cond6", count=0, seed=seed, extra={"mode": "cond", "bound": 6, "extreme": 60, "random": 3000}),
             dict(tag="inst4", count=0, seed=seed, extra={"mode": "inst", "bound": 4, "exh_bits": 12, "samples": 64}),
             dict(tag="sample", count=1800, seed=seed, extra={"mode": "sample", "maxw": 24}),
             dict(tag="sample64", count=600, seed=seed + 1, extra={"mode": "sample", "maxw": 64}),
@@ -37,7 +56,7 @@ def streams(tier, seed):
         ]
     out = [
         dict(tag="table", count=1, seed=seed, extra={"mode": "table"}),
-        dict(tag="cond8", count=0, seed=seed, extra={"mode": "cond", "bound": 8, "extreme": 400}),
+        dict(tag="cond8", count=0, seed=seed, extra={"mode": "cond", "bound": 8, "extreme": 400, "random": 40000}),
         dict(tag="inst5", count=0, seed=seed, extra={"mode": "inst", "bound": 5, "exh_bits": 12, "samples": 256}),
     ]
     for k in range(4):
@@ -49,13 +68,45 @@ def streams(tier, seed):
     return out
 
 
+def _diff_instances(diffs, limit=600):
+    """Diverging side-condition cases -> instance cases (rule + assignment, values sampled by the harness)."""
+    import re
+    wanted = {}
+    for r in diffs:
+        if r.get("key", "").startswith("cond:") and r.get("case_file"):
+            wanted.setdefault(r["case_file"], set()).add(r["id"])
+    picks = []
+    for path, ids in wanted.items():
+        try:
+            for line in open(path):
+                m = re.match(r'\(case (\S+) \(kind cond\) (\(rule "[^"]*"\)) (\(assign.*?\)\)) \(impl ', line)
+                if m and m.group(1) in ids:
+                    widths = [int(x) for x in re.findall(r'"\?w\w*" (\d+)', m.group(3))]
+                    picks.append((max(widths or [0]), m.group(2), m.group(3)))
+        except OSError:
+            pass
+    picks.sort(key=lambda p: p[0])
+    return ["(case d%d (kind inst) %s %s)" % (k, rule, asg) for k, (_, rule, asg) in enumerate(picks[:limit])]
+
+
 def search_streams(tier, seed, diffs):
-    # after a broken proof / correspondence: the exhaustive small instances of every rule, then directed samples
-    return [
+    # after a broken proof / correspondence: first the diverging side-condition assignments themselves, evaluated as
+    # instances (smallest widths first); then the exhaustive small instances of every rule; then directed samples
+    out = []
+    lines = _diff_instances(diffs)
+    if lines:
+        d = os.path.join(os.path.dirname(os.path.dirname(os.path.abspath(__file__))), ".build", "run", "C19")
+        os.makedirs(d, exist_ok=True)
+        path = os.path.join(d, "search-from-diffs.in")
+        with open(path, "w") as f:
+            f.write("\n".join(lines) + "\n")
+        out.append(dict(tag="search-diffs", count=0, seed=seed, extra={"cases-in": path}))
+    out += [
         dict(tag="search-inst5", count=0, seed=seed, extra={"mode": "inst", "bound": 5, "exh_bits": 12, "samples": 128}),
         dict(tag="search-sample", count=20000, seed=seed * 7919, extra={"mode": "sample", "maxw": 64}),
         dict(tag="search-roundtrip", count=30000, seed=seed * 7919 + 1, extra={"mode": "roundtrip"}),
     ]
+    return _with_profile(out)
 
 
 MANIFEST = dict(
